@@ -280,6 +280,17 @@ def run_case(cls, fname, removal, history, n, t):
         if sorted(res) != sorted(exp):
             return {'C02.get_node_snapshots.each_snapshot_with_the_node_once': 'get_node_snapshots(%r) = %r, expected %r' % (n, res, exp)}
         return {}
+    if fname == 'is_empty':
+        import dynetx as dn
+        try:
+            res = dn.is_empty(G)
+        except Exception as ex:
+            return {'C02.is_empty.no_exception.%s' % type(ex).__name__: repr(ex)}
+        some = any(M.ever(a, b) for a in nodes for b in nodes)
+        if bool(res) == (not some) and isinstance(res, bool):
+            return {}
+        return {('C02.is_empty.false_when_some_interaction_is_stored' if some else 'C02.is_empty.true_when_no_interaction_is_stored'):
+                'is_empty(G) = %r, some interaction stored: %r' % (res, some)}
     if fname == 'number_of_interactions':
         try:
             res, exp = G.number_of_interactions(t=t), G.size(t)
@@ -386,8 +397,8 @@ def _search_real(self, engine):
             G, M, outs = run_history(cls, rem, h, probing=False)
             if any(o[0] != o[1] for o in outs) or not M.keys():
                 continue
-            for t in ([None] + list(qs_of(M)) if self.fname != 'get_node_snapshots' else [None]):
-                if self.fname.endswith('degree_iter') or self.fname in ('nodes', 'nodes_iter', 'number_of_nodes', 'size', 'number_of_interactions'):
+            for t in ([None] + list(qs_of(M)) if self.fname not in ('get_node_snapshots', 'is_empty') else [None]):
+                if self.fname.endswith('degree_iter') or self.fname in ('nodes', 'nodes_iter', 'number_of_nodes', 'size', 'number_of_interactions', 'is_empty'):
                     ns = (None,)
                 elif self.fname in ITER_OF:
                     ns = (None, 1, 2, 3, ['list', 1], ['list', 3], ['list', 9])
@@ -782,3 +793,41 @@ class NumberOfInteractionsAll(_NQ):
         ctx.oblige('C02.number_of_interactions_all.asks_size_at_the_callers_t', z3.BoolVal(bool(ok)), tags=T, kind='call-site')
         ctx.oblige('C02.number_of_interactions_all.returns_the_size', (r.z == tok) if r.kind == 'int' else z3.BoolVal(False), tags=T)
         self.unchanged(ctx, c, 'number_of_interactions_all')
+
+
+class IsEmpty(_NQ):
+    """dn.is_empty(G)   ensures  True iff G holds no interaction at all (flattened: no pair was ever added), for both classes;
+    no exception; G not modified.   (any() over the adjacency's row views is the trusted model stated in pyvc.engine.b_any.)"""
+
+    def __init__(self, cls, bound_n=None):
+        MAPS['is_empty'] = None
+        _NQ.__init__(self, cls, 'is_empty', bound_n)
+        self.key = 'function::is_empty'
+
+    def variants(self):
+        return [{'mode': m, 't': 'none'} for m in ('removal', 'accum')]
+
+    def uses(self, eng):
+        return []
+
+    def reads(self):
+        return []
+
+    def setup(self, ctx, variant):
+        c = self.base(ctx, variant)
+        c.argv = [VGraph(c.g)]
+        return c
+
+    def finish(self, ctx, c, outcome):
+        if outcome[0] == 'raise':
+            return self.forbid(ctx, 'C02.is_empty.no_exception.%s' % outcome[1], tags=T, note=outcome[2])
+        r = outcome[1]
+        if r.kind != 'bool':
+            return self.shape(ctx, 'C02.is_empty.returns_a_bool', tags=T, note='result kind %s' % r.kind)
+        w = 'succ' if self.directed else 'adj'
+        C, inn = c.pre['Cell_' + w], c.pre['NodeIn']
+        a, b = z3.Const('a?ie', Node), z3.Const('b?ie', Node)
+        ctx.oblige('C02.is_empty.false_when_some_interaction_is_stored', z3.Implies(z3.And(inn[c.n], C[c.n][c.qb] != 0), z3.Not(r.z)), tags=T)
+        ctx.oblige('C02.is_empty.true_when_no_interaction_is_stored',
+                   z3.Implies(z3.Not(r.z), z3.Exists([a, b], z3.And(inn[a], C[a][b] != 0))), tags=T)
+        self.unchanged(ctx, c, 'is_empty')
